@@ -96,6 +96,7 @@ pub(crate) mod verif_probe {
                 log_client_parameter_status_changes: false,
                 prepared_statement_cache: cache,
                 registering_prepared_statement: reg,
+                /*VERIF_EXTRA_SERVER_FIELDS*/
             };
             // (code that spells out the representation of the cancel map is compiled out in the minimal probe build, which is used
             // when the tree under test changed that representation)
@@ -147,6 +148,12 @@ pub(crate) mod verif_probe {
                     }
                     "has_ps" => json!({"has": server.has_prepared_statement(step["name"].as_str().unwrap())}),
                     "claim" => { server.claim(step["pid"].as_i64().unwrap() as i32, step["key"].as_i64().unwrap() as i32); json!({"ok": true}) }
+                    "map_put" => {
+                        // another server (pid2, key2, host, port) claims itself for client (pid, key): what Server::claim on THAT server does
+                        csmap.lock().insert((step["pid"].as_i64().unwrap() as i32, step["key"].as_i64().unwrap() as i32),
+                            (step["spid"].as_i64().unwrap() as i32, step["skey"].as_i64().unwrap() as i32, step["host"].as_str().unwrap_or("127.0.0.1").to_string(), step["port"].as_u64().unwrap_or(5432) as u16));
+                        json!({"ok": true})
+                    }
                     "mark_dirty" => { server.mark_dirty(); json!({"ok": true}) }
                     "is_bad" => json!({"bad": server.bad}),
                     _ => json!({"error": "unknown step"}),
@@ -216,6 +223,7 @@ pub(crate) mod verif_probe {
                     stats: Arc::new(ServerStats::default()), application_name: "app".to_string(), last_activity: SystemTime::now(),
                     mirror_manager: None, addr_set: None, cleanup_connections: true, log_client_parameter_status_changes: false,
                     prepared_statement_cache: None, registering_prepared_statement: VecDeque::new(),
+                    /*VERIF_EXTRA_SERVER_FIELDS*/
                 };
                 server.claim(c[0].as_i64().unwrap() as i32, c[1].as_i64().unwrap() as i32);
                 servers.push((server, dummy));
